@@ -105,7 +105,8 @@ def on_extent(p, r, exc, acc):
 
 
 # ------------------------------------------------------------------ (b) composition of the pipeline
-CONCRETE_FILTERS = ["n", "h", "trim", "entity", "str", "unicode", "decode.utf8", "ff", "gg(1)", "ns.ff(aa, bb)", "gg((-2) ** 2)", "gg(u)"]
+CONCRETE_FILTERS = ["n", "h", "trim", "entity", "str", "unicode", "decode.utf8", "ff", "gg(1)", "ns.ff(aa, bb)", "gg((-2) ** 2)", "gg(u)",
+                    "ns.mk(3).ap", "gg(len([e for e in (1, 2)]))"]        # an attribute after a call; a comprehension as argument
 # ways of writing the same filter list (the list is Python: blanks, a line break after a comma and a comment are no part of it)
 SPELLINGS = ["plain", "newline-after-comma", "comment-after-last", "leading-newline"]
 DEFAULTS = [None, [], ["str"], ["ff"], ["ff", "h"], ("ff",)]          # None = not configured -> ['str']
